@@ -49,7 +49,7 @@ SIZE_LIMIT = 160
 
 
 class Val:
-    __slots__ = ('ast', 'tags', 'const', 'elems', 'closure', '_text', 'size', 'fields', 'items', 'partial', 'obj', 'bound', 'recv')
+    __slots__ = ('ast', 'tags', 'const', 'elems', 'closure', '_text', 'size', 'fields', 'items', 'partial', 'obj', 'bound', 'recv', 'decided')
 
     def __init__(self, node, tags=frozenset(), const=NOCONST, elems=None, closure=None, parts=None, site=None):
         """parts: the component values the node was built from (their sizes bound the size of this value; a value
@@ -76,6 +76,7 @@ class Val:
         self.obj = None         # (class name, object number): an instance of a private helper class created on this path (attributes: Path.heap)
         self.bound = False      # a method value whose receiver is partial[0][0]
         self.recv = None        # value of `x` for an attribute value `x.attr`
+        self.decided = None     # True / False when this very value object is the result of a test the path has decided
 
     @property
     def text(self):
@@ -115,6 +116,8 @@ class EnumConst:
 
 def _known(p, t):
     """truth of a test the path has already decided: the very same (side-effect free) expression was branched on before"""
+    if t is not None and getattr(t, 'decided', None) is not None:
+        return t.decided
     if t is None or any(isinstance(n, (ast.Call, ast.Await, ast.Yield, ast.YieldFrom, ast.NamedExpr)) and not (isinstance(n, ast.Call) and isinstance(n.func, ast.Name) and n.func.id in ('isinstance', 'issubclass', 'callable', 'type', 'id')) for n in ast.walk(t.ast)):
         return None
     if 'mutated' in t.tags:
@@ -251,6 +254,14 @@ class Tracer:
 
     def _stmt(self, s, p, fi, depth):
         if isinstance(s, _Deferred):
+            if s.fact is not None:
+                # the name bound by `if (x := <pure test>)` holds the value of the test: true on this branch / false on the other
+                v_ = Val(self._sub(s.fact[1], p))
+                v_.decided = s.fact[2]       # (this very value object exists on this branch only)
+                p.env[s.fact[0]] = v_
+                if (v_.text, s.fact[2]) not in p.facts:
+                    p.facts.append((v_.text, s.fact[2]))
+                return [p]
             return self._branch(s.test, s.body, s.orelse, p, fi, depth)
         if isinstance(s, ast.Expr):
             if isinstance(s.value, ast.Constant):
@@ -606,6 +617,12 @@ class Tracer:
         # carries atomic facts:  if A and B: X else: Y  ==  if A: (if B: X else: Y) else: Y
         if isinstance(test, ast.UnaryOp) and isinstance(test.op, ast.Not):
             return self._branch(test.operand, orelse, body, p, fi, depth)
+        if isinstance(test, ast.NamedExpr) and isinstance(test.target, ast.Name) and isinstance(test.value, (ast.BoolOp, ast.UnaryOp, ast.Compare)) \
+                and not any(isinstance(n, (ast.Call, ast.NamedExpr, ast.Await, ast.Yield, ast.YieldFrom)) and not (isinstance(n, ast.Call) and isinstance(n.func, ast.Name) and n.func.id in ('isinstance', 'issubclass', 'callable')) for n in ast.walk(test.value)):
+            # if (x := A and B): ...   - the test is decided atom by atom, and x is bound to the (pure) test on both branches
+            t_ = _Deferred(None, None, None, fact=(test.target.id, test.value, True))
+            f_ = _Deferred(None, None, None, fact=(test.target.id, test.value, False))
+            return self._branch(test.value, [t_] + list(body), [f_] + list(orelse), p, fi, depth)
         if isinstance(test, ast.BoolOp) and len(test.values) >= 2:
             first, rest = test.values[0], test.values[1:]
             rest_test = rest[0] if len(rest) == 1 else ast.BoolOp(op=test.op, values=rest)
@@ -1200,7 +1217,8 @@ class Tracer:
             if f.id in fi.module.functions and (f.id.startswith('_') or f.id in self.inline_extra):
                 return fi.module.functions[f.id], 0, None
             imp = fi.module.imports.get(f.id)
-            if imp and ':' in imp and f.id in self.inline_extra:
+            if imp and ':' in imp and (f.id in self.inline_extra or (imp.split(':')[1].startswith('_') and not imp.split(':')[1].startswith('__') and (imp.startswith('.') or imp.startswith('awesomeyaml')))):
+                # (a private helper of a sibling module of the package is part of the function that calls it, like a local one)
                 modpart, name = imp.split(':')
                 for m in self.repo.modules.values():
                     if modpart.lstrip('.') and m.name.endswith(modpart.lstrip('.')) and name in m.functions:
@@ -1583,9 +1601,10 @@ class _Deferred(ast.stmt):
     """synthetic statement: `if test: body else: orelse` produced by desugaring and / or"""
     _fields = ()
 
-    def __init__(self, test, body, orelse):
+    def __init__(self, test, body, orelse, fact=None):
         super().__init__()
         self.test, self.body, self.orelse = test, body, orelse
+        self.fact = fact          # (name, expression, polarity): bind the name to the (already decided) test expression
 
 
 class _PartialView:
@@ -1649,6 +1668,8 @@ def _never_none(v):
         return True
     if isinstance(n, ast.UnaryOp) and isinstance(n.op, (ast.Not, ast.USub, ast.Invert)):
         return True
+    if v.fields is not None or v.obj is not None:
+        return True       # a record / helper object constructed on this path
     return False
 
 
